@@ -218,6 +218,9 @@ type evOp struct {
 	IK      string
 	DryRun  bool
 	Version string
+	// revert only
+	NilMeta         bool
+	AtEffectiveDate bool
 }
 
 func (o evOp) String() string {
@@ -230,6 +233,14 @@ func (o evOp) String() string {
 		}
 	case "revert":
 		s = fmt.Sprintf("revert %d force=%v", o.TxID, o.Force)
+		if o.AtEffectiveDate {
+			s += " atEffectiveDate"
+		}
+		if o.NilMeta {
+			s += " meta=nil"
+		} else {
+			s += fmt.Sprintf(" meta=%v", o.Meta)
+		}
 	case "saveTxMeta":
 		s = fmt.Sprintf("saveTxMeta %d %v", o.TxID, o.Meta)
 	case "deleteTxMeta":
@@ -266,8 +277,12 @@ func (o evOp) run(ctx context.Context, c ledgercontroller.Controller) (log *ledg
 		log, _, hit, err = c.CreateTransaction(ctx, ledgercontroller.Parameters[ledgercontroller.CreateTransaction]{DryRun: o.DryRun, IdempotencyKey: o.IK,
 			Input: ledgercontroller.CreateTransaction{RunScript: run}})
 	case "revert":
+		md := toMD(o.Meta)
+		if o.NilMeta {
+			md = nil
+		}
 		log, _, hit, err = c.RevertTransaction(ctx, ledgercontroller.Parameters[ledgercontroller.RevertTransaction]{DryRun: o.DryRun, IdempotencyKey: o.IK,
-			Input: ledgercontroller.RevertTransaction{TransactionID: o.TxID, Force: o.Force, Metadata: metadata.Metadata{}}})
+			Input: ledgercontroller.RevertTransaction{TransactionID: o.TxID, Force: o.Force, AtEffectiveDate: o.AtEffectiveDate, Metadata: md}})
 	case "saveTxMeta":
 		log, hit, err = c.SaveTransactionMetadata(ctx, ledgercontroller.Parameters[ledgercontroller.SaveTransactionMetadata]{DryRun: o.DryRun, IdempotencyKey: o.IK,
 			Input: ledgercontroller.SaveTransactionMetadata{TransactionID: o.TxID, Metadata: toMD(o.Meta)}})
